@@ -38,6 +38,7 @@ structure Env where
   rxOK : Str → Bool
   pf : Str → Option Nat
   ff : Nat → Str := fun _ => []
+  unknown : Str → Bool := fun _ => false    -- "this type name is not loadable in the context" (then it is a TypeReference)
 
 inductive NKind where
   | alias | object | typeset
